@@ -469,8 +469,37 @@ class C03(core.Check):
                     vis.pop(0)
                 if not self.contiguous_in(vis, full):
                     msgs.append(f"row {k}: the clipped row {row} is not a contiguous part of the line")
-                elif case["align"] == "left" and vis and full[:len(vis)] != vis and 32 not in full:
-                    msgs.append(f"row {k}: left-aligned clipped row does not start at the beginning of the line")
+                elif case["align"] in ("left", "right"):
+                    # only the part beyond the width is cut: the row is the longest prefix (left) / suffix (right)
+                    # of the line that fits; zero-width characters sitting exactly on the cut may go either way
+                    lu = []
+                    for s in ln:
+                        if s[0] == "T":
+                            lu += [(piece(us[i][0], us[i][1]), us[i][2]) for i in range(starts[s[2]], ends[s[3]] + 1)]
+                    if case["align"] == "right":
+                        lu = lu[::-1]
+                    variants = []
+                    for gobble in (True, False):
+                        cum, taken = 0, []
+                        for cps, wd in lu:
+                            if cum + wd > w or (wd == 0 and cum == w and not gobble):
+                                break
+                            taken.append(cps)
+                            cum += wd
+                        if not gobble:
+                            while taken and self.str_width(taken[-1], case) == 0:
+                                taken.pop()
+                        if case["align"] == "right":
+                            body = [c for cps in taken[::-1] for c in cps]
+                            variants.append([32] * (w - cum) + body)
+                        else:
+                            body = [c for cps in taken for c in cps]
+                            variants.append(body + [32] * (w - cum))
+                        if cum == 0:
+                            variants.append([32] * w)      # nothing visible fits: a blank row
+                    if row not in variants:
+                        msgs.append(f"row {k}: {case['align']}-aligned clipped row {row} is not the longest part of the line "
+                                    f"that fits (expected {variants[0]})")
                 continue
             exp = []
             for s in ln:
@@ -644,8 +673,32 @@ class C03(core.Check):
 
 
 C03.level_text = (
-    "PLACEHOLDER")
+    "Proved in Coq (Properties/C03.v, 17 theorems, closed under the global context) about the executable model of "
+    "StandardTextLayout / trim_line / apply_text_layout, for EVERY str text, every width >= 1, every wrap mode, alignment and "
+    "ellipsis string, and every character-width function with widths in 0..2 and a 1-column space, with no size bound: "
+    "layout never raises and the loops terminate within the model's fuel (layout_total; the 'space' mode 'unwrap previous "
+    "space' branch, which moves the index backwards, by a lexicographic measure); shown ranges are increasing and disjoint, "
+    "nothing twice, original order, all four modes (layout_order, layout_shows_nothing_twice); every offset not shown is a "
+    "newline, the space named by a line's removed-character hint, part of a zero-width-only run starting where the previous "
+    "line stopped, or - ellipsis - at/after the maximal cut in front of the ellipsis (layout_omits_only_wrap/_trim); every "
+    "any/space/ellipsis line fits and each segment claims exactly its characters' columns (layout_fits_wrap/_ellipsis); "
+    "'any' lines are maximal (any_maximal); 'space' breaks only at spaces or next to a double-width character when every "
+    "word fits (space_breaks_at_spaces); alignment shift = 0 / (spare+1)//2 / spare (align_pad); rows() = number of rendered "
+    "rows = pack rows (rows_eq_len, pack_rows_eq_rows); a double-width character at width 1 gives [[]] and [[]] arises in no "
+    "other case (wide_in_one_column_empty, empty_line_only_if_cannot_display); rendering never raises and every row is exactly "
+    "width columns for any/space (all alignments), ellipsis (all alignments, width >= 2) and left-aligned clip/ellipsis "
+    "(render_total_partial_wrap/_trim), and a left-aligned clipped row is the longest fitting prefix "
+    "(clip_left_row_is_longest_prefix).  PARTIAL: render_total_full (rendering of over-long clip lines with center/right "
+    "alignment - trim_line cutting on both sides) is stated but not proved; it is decided by the exact model correspondence "
+    "and the oracle only.  The model is hand-written and tied to the code by an exact extracted-model comparison of layout(), "
+    "rows(), pack((w,)), pack(()) and the rendered rows (about 42k cases per quick run: all strings up to length 3 over "
+    "{a, b, space, newline, U+4E16, U+0301} x widths 1..7 x 4 wraps x 3 alignments, a third of length 4, random longer "
+    "texts); utf-8 bytes, euc-jp and ascii texts are judged by the independent oracle only.")
 C03.level_note = (
-    "PLACEHOLDER")
+    "Trusted: Coq kernel; ExtrOcamlBasic extraction + OCaml driver; the hand-written model Model/TextLayout.v (validated by "
+    "the correspondence, not proved against Python); the character width function is a parameter (the harness passes "
+    "urwid.str_util.get_char_width, which C11 checks); the Python oracle.  Assumes width >= 1, the three documented "
+    "alignments and four wrap modes, text without display attributes (attribute/charset run bookkeeping in "
+    "apply_text_layout is not modelled), 'word' = run of non-space non-double-width characters.")
 
 CHECK = C03
